@@ -13,7 +13,7 @@ from .common import judge_flags, run_cases
 PROP = "C12"
 SIGMA = (0.0, 1.0, 3.0, alpha.NAN)
 THR = (0.25, 0.75, 1.0, 2.5, 10.0)
-PERIODS = (60, 90, 120, 121, 600)
+PERIODS = (60, 90, 120, 120.5, 121, 600)
 MINS = ((None, None), (1, None), (2, None), (3, None), (None, 60), (None, 120), (None, 150))
 GAPSETS = ((60, 60, 60, 60), (60, 120, 300, 60), (300, 60, 60, 120), (120, 120, 60, 300), (60, 300, 120, 120),
            (59.4, 60.2, 60.6, 59.6))  # the last one: whole-minute sampling with differing sub-second parts (t0 = T0 + 0.6 s)
